@@ -234,6 +234,12 @@ class Body:
         """constant operand value (following single-def temporaries), or None"""
         for _ in range(depth):
             if op[0] == "c":
+                m = re.search(r"::promoted\[(\d+)\]$", op[2])
+                if m:
+                    pr = self.f.get("promoted", [])
+                    k = int(m.group(1))
+                    if k < len(pr) and len(pr[k]) == 1:
+                        return pr[k][0]
                 return op
             pl = op[1]
             if pl[1] and pl[1] != ["*"]:
@@ -250,6 +256,12 @@ class Body:
                 op = rv[2]
             else:
                 return None
+        return None
+
+    def const_str(self, op):
+        c = self.const_of(op)
+        if c is not None and len(c) > 3 and isinstance(c[3], dict) and "str" in c[3]:
+            return c[3]["str"]
         return None
 
     def operands(self):
@@ -416,3 +428,97 @@ def loc_macro(loc):
     if len(loc) > 2 and loc[2]:
         return (loc[4], loc[5])
     return None
+
+
+# ---- path-sensitive helpers -----------------------------------------------------------------------
+
+def switch_info(b, bb):
+    """Describe what a SwitchInt tests.
+    Returns None or dict(kind='disc'|'bool'|'int', subject=<origin>, edges={succ_bb: label}) where subject is
+    ('call', Call) when the tested value is (a projection of) a call result, ('bin', op, a, b) for comparisons,
+    ('place', root) otherwise; label is the variant name / True / False / integer string / 'otherwise'."""
+    t = b.term(bb)
+    if t[0] != "switch":
+        return None
+    p = op_place(t[1])
+    if p is None:
+        return None
+    d = b.single_def(p[0]) if not p[1] else None
+    if d is None and not p[1] and b.local_ty(p[0]) == "bool":
+        ft = [x[1] for x in t[2] if x[0] == "0"]
+        if len(t[2]) == 1 and ft:
+            return {"kind": "bool", "subject": ("place", (p[0], [])), "edges": {ft[0]: [False], t[3]: [True]}}
+    neg = False
+    if d and d[0] == "stmt" and d[3][0] == "un" and d[3][1] == "Not":
+        neg = True
+        ip = op_place(d[3][2])
+        d = b.single_def(ip[0]) if ip and not ip[1] else None
+    if d and d[0] == "stmt" and d[3][0] == "disc":
+        place = d[3][1]
+        names = dict((v, n) for v, n in d[3][3])
+        root = b.root(place)
+        subj = ("place", root)
+        dd = b.single_def(root[0])
+        if dd and dd[0] == "call":
+            subj = ("call", dd[2], root[1])
+        edges = {}
+        for v, tgt in t[2]:
+            edges.setdefault(tgt, []).append(names.get(v, v))
+        handled = {n for ns in edges.values() for n in ns}
+        rest = [n for n in names.values() if n not in handled]
+        if b.term(t[3])[0] != "unreach":
+            edges.setdefault(t[3], []).extend(rest or ["otherwise"])
+        return {"kind": "disc", "subject": subj, "edges": edges, "adt": d[3][2]}
+    if d and d[0] == "call":
+        ft = [x[1] for x in t[2] if x[0] == "0"]
+        if len(t[2]) == 1 and ft:
+            return {"kind": "bool", "subject": ("call", d[2], []), "edges": {ft[0]: [neg], t[3]: [not neg]}}
+    if d and d[0] == "stmt" and d[3][0] == "bin":
+        ft = [x[1] for x in t[2] if x[0] == "0"]
+        if len(t[2]) == 1 and ft:
+            return {"kind": "bool", "subject": ("bin", d[3][1], d[3][2], d[3][3]), "edges": {ft[0]: [neg], t[3]: [not neg]}}
+    if d and d[0] == "stmt" and d[3][0] == "use" and d[3][1][0] in ("cp", "mv"):
+        # a copied flag / field
+        src = d[3][1][1]
+        ft = [x[1] for x in t[2] if x[0] == "0"]
+        if len(t[2]) == 1 and ft:
+            return {"kind": "bool", "subject": ("place", b.root(src)), "edges": {ft[0]: [neg], t[3]: [not neg]}}
+    edges = {}
+    for v, tgt in t[2]:
+        edges.setdefault(tgt, []).append(v)
+    edges.setdefault(t[3], []).append("otherwise")
+    return {"kind": "int", "subject": ("place", b.root(p)), "edges": edges}
+
+
+def explore(b, init, step, edge=None, start=0, limit=20000):
+    """Path-state exploration (forward, set-of-states per block, fixpoint).
+    step(state, bb) -> state after the block's statements+terminator (or None to drop the path)
+    edge(state, bb, succ) -> state on that edge (or None to drop)
+    Returns {bb: set(states at block exit)} for blocks ending in `ret`, plus all states seen."""
+    at = {start: {init}}
+    work = [start]
+    rets = {}
+    n = 0
+    while work:
+        bb = work.pop()
+        outs = set()
+        for st in at[bb]:
+            s2 = step(st, bb)
+            if s2 is not None:
+                outs.add(s2)
+        if b.term(bb)[0] == "ret":
+            rets.setdefault(bb, set()).update(outs)
+        for s in b.succ(bb):
+            new = set()
+            for st in outs:
+                s3 = edge(st, bb, s) if edge else st
+                if s3 is not None:
+                    new.add(s3)
+            old = at.get(s, set())
+            if not new <= old:
+                at[s] = old | new
+                work.append(s)
+                n += 1
+                if n > limit:
+                    raise RuntimeError("explore: state explosion in %s" % b.id)
+    return rets
